@@ -24,7 +24,9 @@ SHARED = (
     "W - a decorated public function means the same for positional and keyword calls (decorators, properties, __setattr__, "
     "the MRO and name mangling are interpreted, not skipped), an override that delegates to super() forwards what it accepts; "
     "O - every rule of the property is evaluated again for each new optional parameter that one of the package's own callers "
-    "sets to something else than its default (option contexts found at the call sites, DESIGN 9.3d)."
+    "sets to something else than its default (option contexts found at the call sites, DESIGN 9.3d); "
+    "P - package plumbing over every module: no process-wide configuration changes, public names bound to their own functions, "
+    "no stores into other modules, no overwrite_input, distinct scale names, objects restored from pickle equal what the constructor built (DESIGN 9.3e)."
 )
 
 META = {
